@@ -72,6 +72,7 @@ type Specs struct {
 	typeInv   map[string][]Clause // type key -> invariant clauses over "v"
 	lemmas    []*Lemma
 	generated []string
+	unorderedOK map[string]string
 }
 
 type Lemma struct {
@@ -113,7 +114,7 @@ func (s *Specs) ifaceContract(it types.Type, method string) *Contract {
 func loadSpecs(w *World, trustedDir string) *Specs {
 	s := &Specs{contracts: map[string]*Contract{}, ifaces: map[string]*Contract{}, specFns: map[string]*SpecFn{}, pure: map[string]bool{},
 		mutators: map[string]bool{}, noInline: map[string]bool{}, nonnilField: map[string]bool{}, nonnilElem: map[string]bool{},
-		nonnilMapVal: map[string]bool{}, nonnilResult: map[string]bool{}, nonnilIface: map[string]bool{}, w: w, pkgByName: map[string]*types.Package{}, typeInv: map[string][]Clause{}}
+		nonnilMapVal: map[string]bool{}, nonnilResult: map[string]bool{}, nonnilIface: map[string]bool{}, unorderedOK: map[string]string{}, w: w, pkgByName: map[string]*types.Package{}, typeInv: map[string][]Clause{}}
 	for _, p := range w.prog.AllPackages() {
 		name := p.Pkg.Name()
 		if old, ok := s.pkgByName[name]; ok {
@@ -278,6 +279,12 @@ func (s *Specs) parseFile(path string, trusted bool) {
 			s.nonnilElem[rest] = true
 		case "mapval-nonnil":
 			s.nonnilMapVal[rest] = true
+		case "maprange-unordered":
+			// maprange-unordered <func> <loop ordinal> <reason>: the loop's result is an unordered collection by the property's wording
+			f := strings.SplitN(rest, " ", 3)
+			if len(f) == 3 {
+				s.unorderedOK[f[0]+"#"+f[1]] = f[2]
+			}
 		case "iface-nonnil":
 			s.nonnilIface[rest] = true
 		case "result-nonnil":
